@@ -234,6 +234,45 @@ func c11Run(lats []time.Duration, closeEach bool) *Metrics {
 	return m
 }
 
+// c11Periodic: periodic reporting (report -every) renders ONE hdrplot reporter again and again while results
+// keep arriving. The report it prints after the second half has arrived must be the one a fresh reporter prints
+// for the same metrics (whose rows the order check and, through the percentile fields, the rank check judge).
+func c11Periodic(lats []time.Duration, tag string) (out []c11Finding) {
+	m := &Metrics{}
+	rep := NewHDRHistogramPlotReporter(m)
+	h := len(lats) / 2
+	for i := range lats[:h] {
+		m.Add(&Result{Code: 200, Latency: lats[i]})
+	}
+	m.Close()
+	var first, second, fresh bytes.Buffer
+	if err := rep.Report(&first); err != nil {
+		return []c11Finding{{"pct:hdrplot:periodic:error:" + tag, err.Error()}}
+	}
+	for i := range lats[h:] {
+		m.Add(&Result{Code: 200, Latency: lats[h+i]})
+	}
+	m.Close()
+	err1, err2 := rep.Report(&second), NewHDRHistogramPlotReporter(m).Report(&fresh)
+	if err1 != nil || err2 != nil {
+		return []c11Finding{{"pct:hdrplot:periodic:error:" + tag, fmt.Sprint(err1, err2)}}
+	}
+	if second.String() != fresh.String() {
+		a, b := strings.Split(second.String(), "\n"), strings.Split(fresh.String(), "\n")
+		for i := range a {
+			if i >= len(b) || a[i] != b[i] {
+				w := ""
+				if i < len(b) {
+					w = b[i]
+				}
+				return []c11Finding{{"pct:hdrplot:periodic:second-report-differs-from-a-fresh-reporter:" + tag, fmt.Sprintf("line %d of the second report of one reporter: %q, a fresh reporter on the same metrics: %q", i, a[i], w)}}
+			}
+		}
+		return []c11Finding{{"pct:hdrplot:periodic:second-report-differs-from-a-fresh-reporter:" + tag, "the second report is a prefix of the fresh one"}}
+	}
+	return nil
+}
+
 func c11Sorted(lats []time.Duration) []time.Duration {
 	s := append([]time.Duration(nil), lats...)
 	sort.Slice(s, func(i, j int) bool { return s[i] < s[j] })
@@ -328,7 +367,7 @@ func c11Arrange(asc []time.Duration, order int) []time.Duration {
 
 func TestC11(t *testing.T) {
 	R := ev.New("C11")
-	R.Rule = "(c) constant inputs for every value 1..V ns and around every power of 2 and 10; (a) every sequence of length 1..6 over {0,1,2,3,1e3,1e6,1e12}ns, with and without a Close after every Add; (b) 8 structured families (constant, ramp, bimodal with a 1e9 gap at the 50/90/95/99% split, geometric plateaus, saw-tooth) for every n in 1..N (quick: additionally n=500,600..3000) and two-valued inputs ({1us,1s} and {0,1ms}) with every split k/n for n<=60, each in sorted, reversed and interleaved arrival order; a case is distinct+non-trivial when its (arrival sequence, close mode) differs and it holds at least two different latencies (otherwise no percentile can be mis-ordered or mis-ranked); (d) a lattice of data sets at 2^50..2^53 ns (3 base exponents x 8 offsets x spread 2^1..2^30 x 7 (13) sizes x 1 (4) congruential generators) through the hdrplot report and the order check; (e) sets of 17 000 and 40 000 (thorough up to 300 000) latencies arriving with a period of 2..5 (targets hit round robin, one of them slow)"
+	R.Rule = "(c) constant inputs for every value 1..V ns and around every power of 2 and 10; (a) every sequence of length 1..6 over {0,1,2,3,1e3,1e6,1e12}ns, with and without a Close after every Add; (b) 8 structured families (constant, ramp, bimodal with a 1e9 gap at the 50/90/95/99% split, geometric plateaus, saw-tooth) for every n in 1..N (quick: additionally n=500,600..3000) and two-valued inputs ({1us,1s} and {0,1ms}) with every split k/n for n<=60, each in sorted, reversed and interleaved arrival order (for n<=64 and every 100th n also as a periodic report: one hdrplot reporter rendered after the first half and again at the end, compared with a fresh reporter); a case is distinct+non-trivial when its (arrival sequence, close mode) differs and it holds at least two different latencies (otherwise no percentile can be mis-ordered or mis-ranked); (d) a lattice of data sets at 2^50..2^53 ns (3 base exponents x 8 offsets x spread 2^1..2^30 x 7 (13) sizes x 1 (4) congruential generators) through the hdrplot report and the order check; (e) sets of 17 000 and 40 000 (thorough up to 300 000) latencies arriving with a period of 2..5 (targets hit round robin, one of them slow)"
 	R.Assume("random (uniform / log-normal) draws are outside a bounded exhaustive check; every n up to N is run for each structured family instead")
 	R.Assume("rank of an observed latency = its position in the sorted input counted from 0 or from 1, whichever is favourable, and with ties the favourable position (weaker reading: the statement fixes neither; the mid-point interpolation the estimator performs exactly for small n is within the bound for origin 0 and up to 0.5 rank outside for origin 1)")
 	alpha := []time.Duration{0, 1, 2, 3, 1e3, 1e6, 1e12} // (0: a hit answered within the clock's resolution)
@@ -490,6 +529,10 @@ func TestC11(t *testing.T) {
 			R.Trans(j.n + 2)
 			tag := name + "/" + c11Orders[o]
 			fs := c11Check(m, sorted, tag, true)
+			if j.n >= 2 && (j.n <= 64 || j.n%100 == 0) {
+				fs = append(fs, c11Periodic(lats, tag)...)
+				R.Trans(2)
+			}
 			for k := range fs {
 				d := map[string]any{"what": fs[k].detail, "family": name, "n": j.n, "order": c11Orders[o]}
 				if j.fam < 0 {
